@@ -9,6 +9,7 @@ import types
 import numpy as np
 import z3
 
+from harness import c16_replay as _rp
 from vtlib import symnum as S
 from vtlib.symnum import NP, Goals, Sym, sym, sym_array, tz
 
@@ -121,7 +122,7 @@ def centers():
             want = sum(S.rat(masses[i]) * tz(xyz[f, i, k]) for i in range(N)) / S.rat(Mt)
             G.add(f"com[f{f}.{k}]", bounds, S.close(com[f, k], want, z3.RealVal("1/1000000000")), {})
             G.add(f"cog[f{f}.{k}]", [], tz(cog[f, k]) == sum(tz(xyz[f, i, k]) for i in range(N)) / N, {})
-    return G.run(None)
+    return G.run(_rp.replay("centers"))
 
 
 def gyration_and_shape():
@@ -160,7 +161,7 @@ def gyration_and_shape():
             else:
                 tot = l1 + l2 + l3
                 G.add(f"{name}[f{f}]", prem + [tot > S.rat(1e-3)] + S.CTX.assumed, tz(val[f]) * tot * tot == b * b + z3.RealVal("3/4") * cc * cc, {})
-    return G.run(None)
+    return G.run(_rp.replay("gyration_and_shape"))
 
 
 KARPLUS = {  # published constants (Hz), typed from the cited tables: (A, B, C, phi0 in degrees)
@@ -188,7 +189,7 @@ def karplus():
                 want = S.rat(A) * tz(c) * tz(c) + S.rat(B) * tz(c) + S.rat(C)
                 G.add(f"{fn}.{model}[{k}]", list(S.CTX.cons), tz(J[0, k]) == want, {})
             G.add(f"{fn}.{model}.indices", [], z3.BoolVal(ind is idx), {})
-    return G.run(None)
+    return G.run(_rp.replay("karplus"))
 
 
 def density():
@@ -206,7 +207,7 @@ def density():
     for f in range(2):
         G.add(f"density[f{f}]", prem, S.close(tz(d[f]) * tz(vols[f]), S.rat(sum(masses) * 1.66053907), z3.RealVal("1/100000")), {})
         G.add(f"density_masses[f{f}]", prem, S.close(tz(d2[f]) * tz(vols[f]), S.rat(5.0 * 1.66053907), z3.RealVal("1/100000")), {})
-    return G.run(None)
+    return G.run(_rp.replay("density"))
 
 
 def dipoles():
@@ -248,7 +249,7 @@ def dipoles():
             mol = tz(D[(res_first[i], 0, c)]) if res_first[i] != 0 else z3.RealVal(0)
             want = want + tz(q[i]) * (loc + mol)
         G.add(f"dipole[{c}]", [], tz(mom[0, c]) == want, {})
-    return G.run(None)
+    return G.run(_rp.replay("dipoles"))
 
 
 # ------------------------------------------------------------------ residue contacts
@@ -396,7 +397,7 @@ def rdf_normalisation():
         shell = S.rat(4.0 / 3.0 * math.pi * (edges[k + 1] ** 3 - edges[k] ** 3))
         G.add(f"rdf_norm[{k}]", prem, S.close(tz(g[k]) * (3 * inv * shell), S.rat(float(counts[k])), z3.RealVal("1/1000000")), {})
         G.add(f"rdf_r[{k}]", [], z3.BoolVal(abs(float(r[k]) - 0.5 * (edges[k] + edges[k + 1])) < 1e-12), {})
-    return G.run(None)
+    return G.run(_rp.replay("rdf_normalisation"))
 
 
 def squareform_placement():
@@ -415,4 +416,4 @@ def squareform_placement():
                 want = tz(d[f, hit[0]]) if hit else z3.RealVal(0)
                 got = cm[f, a, b]
                 G.add(f"squareform[{f}.{a}{b}]", [], (tz(got) == want), {})
-    return G.run(None)
+    return G.run(_rp.replay("squareform_placement"))
